@@ -143,11 +143,11 @@ CHECKS = {
     ),
     "C13": dict(
         technique="Lean 4 proof (slice/compress = packing of the symbols fetched at the requested bit positions, by induction; entry round trip) + exhaustive sub-range differential in release and debug-assertion builds",
-        text="Lean theorems C13_slice_symbols (for every kind, parent width and [msb:lsb]: the produced bytes render as the parent's symbols at those bit positions), C13_minimal_repack, C13_entry. "
+        text="Lean theorems C13_slice_symbols (for every kind, parent width and [msb:lsb]: the produced bytes render as the parent's symbols at those bit positions), C13_minimal_repack, C13_entry; C13_alias_exact / C13_alias_range (the GHW loader's find_or_add_alias / register_bit_vec give a sub-range either a fresh signal reference or the reference of an alias with exactly the same bit offsets of the same vector). "
              "The real slice_signal (hook) is run on parents recorded through the real store for widths 2..40 x ALL sub-ranges x state mixes (plus random wider parents), in the release profile and in a "
              "profile with debug assertions and overflow checks, and compared with the Lean model and with the substring-of-the-parent specification (canon, minimal kind).",
         design_ref="DESIGN.md section 5 / C13",
-        note="Four defects found by this check were repaired (F11, F12, F13, F14). The GHW alias range arithmetic (register_bit_vec / find_or_add_alias) and end-to-end GHW files are exercised under C11. "
+        note="Four defects found by this check were repaired (F11, F12, F13, F14). Generated GHW files with several sub-ranges per parent are loaded by the real reader and compared with the byte-level Lean model and the denotation (also under C11 / C06). "
              "The composition slice ∘ load is differential, the per-value theorems are unbounded.",
     ),
     "C10": dict(
